@@ -16,6 +16,7 @@ import sys
 
 ROOT = os.path.dirname(os.path.dirname(os.path.abspath(__file__)))
 WT = "/tmp/wt"
+REPO = os.environ.get("MUTANT_REPO", "/repo")
 ENV = dict(os.environ, CARGO_NET_OFFLINE="true", CARGO_TERM_COLOR="never")
 
 
@@ -77,13 +78,13 @@ def detect(pid, letter, props):
     patch = os.path.join(out, "patch.diff")
     if not os.path.exists(patch):
         patch = os.path.join(ROOT, "seeded", f"{pid}-{letter}", "patch.diff")
-    rc, o = sh("git status --porcelain", "/repo")
+    rc, o = sh("git status --porcelain", REPO)
     if o.strip():
-        print("refusing: /repo has uncommitted changes", o)
+        print("refusing: repo has uncommitted changes", o)
         return 2
-    rc, o = sh(f"git apply {patch}", "/repo")
+    rc, o = sh(f"git apply {patch}", REPO)
     if rc != 0:
-        print("patch does not apply to /repo", o)
+        print("patch does not apply to the repo", o)
         return 2
     results = {}
     try:
@@ -95,11 +96,12 @@ def detect(pid, letter, props):
             for s in sigs[:4]:
                 print("     ", s[:260])
     finally:
-        sh("git checkout -- .", "/repo")
-    rc, o = sh("git status --porcelain", "/repo")
+        sh("git checkout -- .", REPO)
+    rc, o = sh("git status --porcelain", REPO)
     assert not o.strip(), o
     os.makedirs(os.path.join(ROOT, "work"), exist_ok=True)
-    with open(os.path.join(ROOT, "work", f"detect-{pid}-{letter}.json"), "w") as f:
+    name = f"detect-{pid}-{letter}.json" if not os.environ.get("MUTANT_CROSS") else f"cross-{pid}-{letter}.json"
+    with open(os.path.join(os.environ.get("MUTANT_OUT", os.path.join(ROOT, "work")), name), "w") as f:
         json.dump(results, f, indent=1)
     return 0
 
